@@ -253,6 +253,16 @@ def gen_case(rng, profile):
             else:
                 ops.append(["clear"])
                 rows_est = 1
+    # an exception inside add_point_to_log (C15: the log must stay aligned): a disabled knob that sits outside
+    # its limits is enabled, tag() then raises ValueError while it evaluates the point; later it is disabled again
+    if profile == "C15" and twin is None and check_limits and rng.random() < 0.06:
+        cand = [j for j in range(n) if vary[j]["limits"] is not None and vary[j]["limits"][1] is not None
+                and math.isfinite(vary[j]["limits"][1])]
+        if cand:
+            j = rng.choice(cand)
+            vary[j]["active"] = False
+            x0[j] = vary[j]["limits"][1] + 0.3
+            ops = [["enable", None, [j], None], ["tag", "t1"], ["disable", None, [j], None], ["tag", "t2"]] + ops
     return {"family": fam, "where": where, "fun": fun, "x0": x0, "vary": vary, "targets": targets, "opts": opts,
             "ops": ops, "twin": twin, "timeout": 5.0}
 
